@@ -139,7 +139,7 @@ fn extended(small: &[Op]) -> Vec<Op> {
 
 /// `==` on every pair from a set of chains: equal exactly when start, moves and outcome are equal
 fn equality(run: &mut Run, game: &Game) {
-    run.seq("EQUALITY: every pair of chains of length <= 3 (G2) x 3 stored outcomes + a different start", |ctx| {
+    run.seq("EQUALITY: every pair of chains of length <= 3 (G2) x 3 stored outcomes + a different start + every five-ply knight line (transpositions)", |ctx| {
         let Some(r) = root(game) else { return };
         let mut nodes = vec![r];
         let pushes: Vec<Op> = (0..game.alphabet.len()).map(|i| Op::Push(i, 0)).collect();
@@ -179,6 +179,29 @@ fn equality(run: &mut Run, game: &Game) {
                         chains.push((c, (1, m, 0)));
                     }
                 }
+            }
+        }
+        // transpositions: every knight-move line of exactly five plies (different orders of the
+        // same moves reach the same positions, then a common tail): equal only if the lists are equal
+        {
+            let knights: Vec<Op> = (0..8.min(game.alphabet.len())).map(|i| Op::Push(i, 0)).collect();
+            let mut level = vec![nodes[0].clone()];
+            for _ in 0..5 {
+                let mut next = Vec::new();
+                for n in &level {
+                    for op in &knights {
+                        let mut scratch = Ctx::new();
+                        if let Some(m) = apply(&mut scratch, game, n, op, 0) {
+                            if m.model.moves.len() > n.model.moves.len() {
+                                next.push(m);
+                            }
+                        }
+                    }
+                }
+                level = next;
+            }
+            for n in level.iter() {
+                chains.push((n.real.clone(), (0, n.model.moves.clone(), 0)));
             }
         }
         for (a, ka) in &chains {
